@@ -38,7 +38,7 @@ ERRS = ["ValueError:boom{}", "KeyError:k{}", "RuntimeError:rt{}", "AntismashInpu
         "SecmetInvalidInputError:sec{}"]
 KF_UNRECONSTRUCTIBLE = "KF-C18-unreconstructible-exception"
 STALL_TIMEOUT = 0.01       # seconds; deadline used when the schedule says "the deadline passes"
-FAR_TIMEOUT = 60.0         # a deadline that is given but never reached
+FAR_TIMEOUT = 15.0         # a deadline that is given but never reached
 
 
 # --------------------------------------------------------------------------- schedules
@@ -109,6 +109,7 @@ class _Control:
         self.children_calls = 0
         self.thread: Optional[threading.Thread] = None
         self.watchdog = (3.0 if _Control.blocked_seen < 3 else 0.05) + deadline
+        self.patience = 5.0 if _Control.blocked_seen < 3 else 0.3     # waiting for a batch to reach its gate
 
     # called by the pool when the batch is submitted
     def prepare(self, n: int, workers: int) -> None:
@@ -158,7 +159,11 @@ class _Control:
                 chunk = event[1]
                 if chunk >= self.chunks or chunk in done:
                     continue
-                if not self.arrived[chunk].wait(5.0):
+                waited = time.monotonic()
+                while not self.arrived[chunk].wait(0.01):
+                    if self.released.is_set() or time.monotonic() - waited > self.patience:
+                        break
+                if not self.arrived[chunk].is_set():
                     break
                 left = getattr(result, "_number_left", None)
                 done.add(chunk)
@@ -225,8 +230,20 @@ def _pool_class(ctl: _Control) -> Any:
     return GatedPool
 
 
+CASE_LIMIT = 10.0          # seconds one scheduled case may take (its calls complete instantly)
+
+
 def run_scheduled(case: Dict[str, Any]) -> Dict[str, Any]:
     """the real parallel_function / parallel_execute under a chosen schedule"""
+    begun = time.monotonic()
+    obs = _run_scheduled(case)
+    took = time.monotonic() - begun
+    if took > CASE_LIMIT + float(case.get("deadline", 0)):
+        obs["slow_s"] = round(took, 1)
+    return obs
+
+
+def _run_scheduled(case: Dict[str, Any]) -> Dict[str, Any]:
     from unittest import mock
     from antismash.common.subprocessing import base
     from antismash.config import destroy_config, update_config
@@ -359,6 +376,15 @@ class C18(Property):
     def __init__(self) -> None:
         self._procs: List[Tuple[subprocess.Popen, List[Dict[str, Any]]]] = []
         self.extra_evaluations = 0
+        self._started = time.monotonic()
+        self._violations = 0          # judged failures outside the known-finding classes so far
+        self._skipped = 0
+
+    def over_budget(self) -> bool:
+        """once something has already failed, the run is not allowed to crawl: after the budget the
+           remaining cases are skipped (and counted) instead of waiting out one limit after another"""
+        budget = 420.0 if getattr(self, "_tier", "quick") == "thorough" else 240.0
+        return self._violations > 0 and time.monotonic() - self._started > budget
 
     # ------------------------------------------------------------------ scheduled-case generators
     def rand_outcomes(self, rng: random.Random, n: int, kind: str, failures: int) -> List[List[Any]]:
@@ -467,6 +493,7 @@ class C18(Property):
         self.small_scope_cases = total
 
     def cases(self, rng: random.Random, tier: str, deep: bool) -> Iterator[Dict[str, Any]]:
+        self._tier = tier
         self._start_real(rng, tier, deep)
         n_sched = 9000 if deep else 1500
         n_single = 20000 if deep else 3000
@@ -710,7 +737,7 @@ class C18(Property):
     @staticmethod
     def _spawn(cases: List[Dict[str, Any]]) -> subprocess.Popen:
         import tempfile
-        env = dict(os.environ, ASV_REPO=str(REPO))
+        env = dict(os.environ, ASV_REPO=str(REPO), ASV_C18_BUDGET=os.environ.get("ASV_C18_BUDGET", "240"))
         feed = tempfile.TemporaryFile(mode="w+", prefix="asv_c18_cases_")
         feed.write("".join(json.dumps(c) + "\n" for c in cases))
         feed.flush()
@@ -735,7 +762,13 @@ class C18(Property):
     # ------------------------------------------------------------------ implementation adapter
     def run_impl(self, case: Dict[str, Any]) -> Dict[str, Any]:
         if case["kind"] in ("pf", "pe"):
-            return run_scheduled(case)
+            if self.over_budget():
+                self._skipped += 1
+                return {"skipped": True}
+            obs = run_scheduled(case)
+            if obs.get("blocked") or obs.get("slow_s"):
+                self._violations += 1      # seen before the batch is judged: lets the budget apply at once
+            return obs
         proc = self._spawn([case])
         return self._collect(proc, [case], 120.0)[0]
 
@@ -752,6 +785,8 @@ class C18(Property):
 
     def driver_line(self, case: Dict[str, Any], obs: Dict[str, Any]) -> Optional[Dict[str, Any]]:
         kind = case["kind"]
+        if obs.get("skipped"):
+            return None
         impl = self._outcome(obs)
         if "ret" in impl and not all(v is None or (isinstance(v, int) and not isinstance(v, bool)) for v in impl["ret"]):
             impl = {"err": "task", "e": "non-integer results"}   # cannot be what the spec expects
@@ -788,6 +823,19 @@ class C18(Property):
         return None
 
     def judge(self, case: Dict[str, Any], obs: Dict[str, Any], drv: Optional[Dict[str, Any]]) -> Judgement:
+        if obs.get("skipped"):
+            return Judgement(True, True, tags=(case["kind"], "skipped-after-budget"),
+                             detail="skipped: a violation was already found and the time budget is used up")
+        verdict = self._judge(case, obs, drv)
+        if obs.get("slow_s") and verdict.spec_ok and verdict.corr_ok:
+            verdict = Judgement(False, False, in_scope=verdict.in_scope, tags=verdict.tags + ("slow",),
+                                detail=f"the helper did not return within {CASE_LIMIT:.0f} s (took {obs['slow_s']} s) "
+                                       f"although every call completes at once")
+        if (not verdict.spec_ok or not verdict.corr_ok) and not verdict.known:
+            self._violations += 1
+        return verdict
+
+    def _judge(self, case: Dict[str, Any], obs: Dict[str, Any], drv: Optional[Dict[str, Any]]) -> Judgement:
         kind = case["kind"]
         if "harness_error" in obs:
             return Judgement(False, False, detail=f"harness could not run the case: {obs['harness_error']} "
@@ -866,6 +914,9 @@ class C18(Property):
             elif obs.get("pools"):
                 corr = False
                 detail = "a pool was created for a single cpu"
+        if not spec_ok and obs.get("blocked") and obs.get("limit_s"):
+            detail = (f"the helper did not return within {obs['limit_s']:.0f} s although all calls together "
+                      f"take {obs.get('calls_s', 0):.1f} s")
         if not spec_ok:
             detail = detail or f"outcome {json.dumps(impl)[:200]} not acceptable; sequential reference {json.dumps(drv['seq'])[:200]}"
         elif not corr and not detail:
@@ -921,7 +972,8 @@ class C18(Property):
         self.extra_coverage = {"real_process_cases": len(pairs), "real_process_nontrivial": nontrivial,
                                "real_process_tags": dict(sorted(tags.items())),
                                "real_process_cpus": sorted(cpus_seen),
-                               "small_scope_cases": getattr(self, "small_scope_cases", 0)}
+                               "small_scope_cases": getattr(self, "small_scope_cases", 0),
+                               "skipped_after_budget": self._skipped + tags.get("skipped-after-budget", 0)}
         return failures
 
     # ------------------------------------------------------------------ shrinking
